@@ -2315,6 +2315,11 @@ class Transport(threading.Thread, ClosingContextManager):
                     emsg = e.args
                 self._log(ERROR, "Socket exception: " + emsg)
                 self.saved_exception = e
+            except UnicodeDecodeError as e:
+                # a text field in a message from the peer was not valid UTF-8
+                e = SSHException("Invalid text from peer: {}".format(e))
+                self._log(ERROR, "Exception: {}".format(e))
+                self.saved_exception = e
             except Exception as e:
                 self._log(ERROR, "Unknown exception: " + str(e))
                 self._log(ERROR, util.tb_strings())
